@@ -23,24 +23,30 @@ import (
 )
 
 var c02Collision = map[string]string{
-	"format-placeholders":       "on: push\njobs:\n  a:\n    runs-on: ubuntu-latest\n    steps:\n      - run: echo ${{ format('{1} {2} {3}', 'a') }}\n",
-	"action-missing-inputs":     "on: push\njobs:\n  a:\n    runs-on: ubuntu-latest\n    steps:\n      - uses: actions/upload-release-asset@v1\n      - uses: actions/upload-release-asset@v1\n        with:\n          bogus_one: 1\n          bogus_two: 2\n",
-	"runner-label-conflict":     "on: push\njobs:\n  a:\n    runs-on: [linux, ubuntu-22.04, windows-2022, macos-13]\n    steps:\n      - run: echo\n",
-	"needs-two-disjoint-cycles": "on: push\njobs:\n  a:\n    needs: b\n    runs-on: ubuntu-latest\n    steps:\n      - run: echo\n  b:\n    needs: a\n    runs-on: ubuntu-latest\n    steps:\n      - run: echo\n  c:\n    needs: d\n    runs-on: ubuntu-latest\n    steps:\n      - run: echo\n  d:\n    needs: c\n    runs-on: ubuntu-latest\n    steps:\n      - run: echo\n",
-	"needs-overlapping-cycles":  "on: push\njobs:\n  a:\n    needs: [b, c]\n    runs-on: ubuntu-latest\n    steps:\n      - run: echo\n  b:\n    needs: [a]\n    runs-on: ubuntu-latest\n    steps:\n      - run: echo\n  c:\n    needs: [a, b]\n    runs-on: ubuntu-latest\n    steps:\n      - run: echo\n",
-	"needs-dangling":            "on: push\njobs:\n  a:\n    needs: [x, y]\n    runs-on: ubuntu-latest\n    steps:\n      - run: echo\n  b:\n    needs: [z, a, w]\n    runs-on: ubuntu-latest\n    steps:\n      - run: echo\n",
-	"permissions-unknown":       "on: push\npermissions:\n  foo: read\n  bar: write\n  contents: bogus\njobs:\n  a:\n    permissions:\n      baz: read\n      qux: none\n    runs-on: ubuntu-latest\n    steps:\n      - run: echo\n",
-	"duplicate-ids":             "on: push\njobs:\n  a:\n    runs-on: ubuntu-latest\n    steps:\n      - id: s\n        run: echo\n      - id: S\n        run: echo\n      - id: s\n        run: echo\n  A:\n    runs-on: ubuntu-latest\n    steps:\n      - run: echo\n",
-	"object-filter-untrusted":   "on: pull_request\njobs:\n  a:\n    runs-on: ubuntu-latest\n    steps:\n      - run: echo ${{ github.event.*.body }} ${{ github.event.pull_request.*.ref }} ${{ github.event.commits.*.author.* }}\n      - run: echo ${{ toJSON(github.event.*.title) }}\n",
-	"undefined-things":          "on: push\njobs:\n  a:\n    runs-on: ubuntu-latest\n    strategy:\n      matrix:\n        x: [1, 2]\n        y: [a, b]\n        z: [c]\n    steps:\n      - run: echo ${{ matrix.nope }} ${{ steps.nope.outputs.x }} ${{ needs.nope }} ${{ nosuch.x }} ${{ nosuchfn() }} ${{ env.FOO.bar }}\n        env:\n          'a b': 1\n          'c=d': 2\n          'e&f': 3\n",
-	"matrix-duplicates":         "on: push\njobs:\n  a:\n    runs-on: ubuntu-latest\n    strategy:\n      matrix:\n        x: [1, 1, 2, 2]\n        y: [{a: 1, b: 2}, {b: 2, a: 1}]\n        include:\n          - x: 1\n            w: 2\n        exclude:\n          - nope: 1\n            nada: 2\n          - x: 3\n            y: 4\n    steps:\n      - run: echo\n",
-	"webhook-types":             "on:\n  issues:\n    types: [bogus, nope]\n  pull_request:\n    types: [wrong]\n    branches: ['[', 'a b']\n  bogus_event:\n  workflow_dispatch:\n    inputs:\n      a:\n        type: choice\n      b:\n        type: nope\n        options: [x]\njobs:\n  a:\n    runs-on: ubuntu-latest\n    steps:\n      - run: echo ${{ inputs.a }} ${{ inputs.zzz }} ${{ github.event.inputs.qqq }}\n",
-	"shell-names":               "on: push\ndefaults:\n  run:\n    shell: nosuch\njobs:\n  a:\n    runs-on: windows-latest\n    defaults:\n      run:\n        shell: zsh\n    steps:\n      - run: echo\n        shell: fish\n      - run: echo\n  b:\n    runs-on: [ubuntu-latest, windows-latest]\n    steps:\n      - run: echo\n        shell: cmd\n",
-	"with-unknown-inputs":       "on: push\njobs:\n  a:\n    runs-on: ubuntu-latest\n    steps:\n      - uses: actions/checkout@v4\n        with:\n          bogus_one: 1\n          bogus_two: 2\n          BOGUS_three: 3\n      - uses: actions/cache@v4\n",
-	"deprecated+ifcond":         "on: push\njobs:\n  a:\n    runs-on: ubuntu-latest\n    if: ${{ true }} && false\n    steps:\n      - run: |\n          echo '::set-output name=a::b'\n          echo '::save-state name=a::b'\n          echo '::set-env name=a::b'\n          echo '::add-path::b'\n        if: ${{ false }} || true\n",
-	"credentials+container":     "on: push\njobs:\n  a:\n    runs-on: ubuntu-latest\n    container:\n      image: x\n      credentials:\n        username: u\n        password: plain\n    services:\n      s1:\n        image: y\n        credentials:\n          username: u\n          password: plain\n      s2:\n        image: z\n        credentials:\n          username: u\n          password: plain2\n    steps:\n      - run: echo\n",
-	"matrix-include-type-merge": "on: push\njobs:\n  a:\n    runs-on: ubuntu-latest\n    strategy:\n      matrix:\n        include:\n          - ${{ env }}\n          - ${{ fromJSON('{\"a\":1,\"b\":true,\"c\":\"x\",\"d\":null}') }}\n          - ${{ vars }}\n          - ${{ fromJSON('{\"a\":\"s\",\"e\":[1],\"f\":{\"g\":1}}') }}\n          - a: 1.5\n            h: {i: j}\n    steps:\n      - run: echo ${{ matrix.zz.yy }} ${{ matrix.a.b }} ${{ matrix.e.f }} ${{ matrix.f.g.h }} ${{ matrix.h.i.j }} ${{ toJSON(matrix) == 1 }}\n",
-	"workflow-call-self":        "on:\n  workflow_call:\n    inputs:\n      a:\n        type: string\n      b:\n        type: number\n        required: true\n    secrets:\n      s:\n        required: true\n    outputs:\n      o1:\n        value: ${{ jobs.a.outputs.nope }}\n      o2:\n        value: ${{ jobs.nope.outputs.x }}\njobs:\n  a:\n    runs-on: ubuntu-latest\n    outputs:\n      x: y\n    steps:\n      - run: echo ${{ inputs.zzz }} ${{ secrets.qqq }}\n",
+	"format-placeholders":   "on: push\njobs:\n  a:\n    runs-on: ubuntu-latest\n    steps:\n      - run: echo ${{ format('{1} {2} {3}', 'a') }}\n",
+	"action-missing-inputs": "on: push\njobs:\n  a:\n    runs-on: ubuntu-latest\n    steps:\n      - uses: actions/upload-release-asset@v1\n      - uses: actions/upload-release-asset@v1\n        with:\n          bogus_one: 1\n          bogus_two: 2\n",
+	"runner-label-conflict": "on: push\njobs:\n  a:\n    runs-on: [linux, ubuntu-22.04, windows-2022, macos-13]\n    steps:\n      - run: echo\n",
+	// the same kind of input laid out over several lines, so that "earlier in the source" and
+	// "smaller column" disagree
+	"runner-label-conflict-wrapped":     "on: push\njobs:\n  a:\n    runs-on: [self-hosted, linux,\n      ubuntu-22.04, windows-2022,\n   macos-13]\n    steps:\n      - run: echo\n",
+	"runner-label-matrix-include-first": "on: push\njobs:\n  a:\n    strategy:\n      matrix:\n        include:\n          - os: macos-14\n        os: [ubuntu-22.04,\n   windows-2022]\n    runs-on: [\"${{ matrix.os }}\", ubuntu-24.04]\n    steps:\n      - run: echo\n",
+	"webhook-types-wrapped":             "on:\n  pull_request:\n    types: [bogus, nope,\n wrong]\n    branches: ['[',\n 'a b']\njobs:\n  a:\n    runs-on: ubuntu-latest\n    steps:\n      - run: echo\n",
+	"needs-wrapped":                     "on: push\njobs:\n  a:\n    needs: [x, b,\n y, c]\n    runs-on: ubuntu-latest\n    steps:\n      - run: echo\n  b:\n    needs: [c,\n a]\n    runs-on: ubuntu-latest\n    steps:\n      - run: echo\n  c:\n    needs: [a]\n    runs-on: ubuntu-latest\n    steps:\n      - run: echo\n",
+	"needs-two-disjoint-cycles":         "on: push\njobs:\n  a:\n    needs: b\n    runs-on: ubuntu-latest\n    steps:\n      - run: echo\n  b:\n    needs: a\n    runs-on: ubuntu-latest\n    steps:\n      - run: echo\n  c:\n    needs: d\n    runs-on: ubuntu-latest\n    steps:\n      - run: echo\n  d:\n    needs: c\n    runs-on: ubuntu-latest\n    steps:\n      - run: echo\n",
+	"needs-overlapping-cycles":          "on: push\njobs:\n  a:\n    needs: [b, c]\n    runs-on: ubuntu-latest\n    steps:\n      - run: echo\n  b:\n    needs: [a]\n    runs-on: ubuntu-latest\n    steps:\n      - run: echo\n  c:\n    needs: [a, b]\n    runs-on: ubuntu-latest\n    steps:\n      - run: echo\n",
+	"needs-dangling":                    "on: push\njobs:\n  a:\n    needs: [x, y]\n    runs-on: ubuntu-latest\n    steps:\n      - run: echo\n  b:\n    needs: [z, a, w]\n    runs-on: ubuntu-latest\n    steps:\n      - run: echo\n",
+	"permissions-unknown":               "on: push\npermissions:\n  foo: read\n  bar: write\n  contents: bogus\njobs:\n  a:\n    permissions:\n      baz: read\n      qux: none\n    runs-on: ubuntu-latest\n    steps:\n      - run: echo\n",
+	"duplicate-ids":                     "on: push\njobs:\n  a:\n    runs-on: ubuntu-latest\n    steps:\n      - id: s\n        run: echo\n      - id: S\n        run: echo\n      - id: s\n        run: echo\n  A:\n    runs-on: ubuntu-latest\n    steps:\n      - run: echo\n",
+	"object-filter-untrusted":           "on: pull_request\njobs:\n  a:\n    runs-on: ubuntu-latest\n    steps:\n      - run: echo ${{ github.event.*.body }} ${{ github.event.pull_request.*.ref }} ${{ github.event.commits.*.author.* }}\n      - run: echo ${{ toJSON(github.event.*.title) }}\n",
+	"undefined-things":                  "on: push\njobs:\n  a:\n    runs-on: ubuntu-latest\n    strategy:\n      matrix:\n        x: [1, 2]\n        y: [a, b]\n        z: [c]\n    steps:\n      - run: echo ${{ matrix.nope }} ${{ steps.nope.outputs.x }} ${{ needs.nope }} ${{ nosuch.x }} ${{ nosuchfn() }} ${{ env.FOO.bar }}\n        env:\n          'a b': 1\n          'c=d': 2\n          'e&f': 3\n",
+	"matrix-duplicates":                 "on: push\njobs:\n  a:\n    runs-on: ubuntu-latest\n    strategy:\n      matrix:\n        x: [1, 1, 2, 2]\n        y: [{a: 1, b: 2}, {b: 2, a: 1}]\n        include:\n          - x: 1\n            w: 2\n        exclude:\n          - nope: 1\n            nada: 2\n          - x: 3\n            y: 4\n    steps:\n      - run: echo\n",
+	"webhook-types":                     "on:\n  issues:\n    types: [bogus, nope]\n  pull_request:\n    types: [wrong]\n    branches: ['[', 'a b']\n  bogus_event:\n  workflow_dispatch:\n    inputs:\n      a:\n        type: choice\n      b:\n        type: nope\n        options: [x]\njobs:\n  a:\n    runs-on: ubuntu-latest\n    steps:\n      - run: echo ${{ inputs.a }} ${{ inputs.zzz }} ${{ github.event.inputs.qqq }}\n",
+	"shell-names":                       "on: push\ndefaults:\n  run:\n    shell: nosuch\njobs:\n  a:\n    runs-on: windows-latest\n    defaults:\n      run:\n        shell: zsh\n    steps:\n      - run: echo\n        shell: fish\n      - run: echo\n  b:\n    runs-on: [ubuntu-latest, windows-latest]\n    steps:\n      - run: echo\n        shell: cmd\n",
+	"with-unknown-inputs":               "on: push\njobs:\n  a:\n    runs-on: ubuntu-latest\n    steps:\n      - uses: actions/checkout@v4\n        with:\n          bogus_one: 1\n          bogus_two: 2\n          BOGUS_three: 3\n      - uses: actions/cache@v4\n",
+	"deprecated+ifcond":                 "on: push\njobs:\n  a:\n    runs-on: ubuntu-latest\n    if: ${{ true }} && false\n    steps:\n      - run: |\n          echo '::set-output name=a::b'\n          echo '::save-state name=a::b'\n          echo '::set-env name=a::b'\n          echo '::add-path::b'\n        if: ${{ false }} || true\n",
+	"credentials+container":             "on: push\njobs:\n  a:\n    runs-on: ubuntu-latest\n    container:\n      image: x\n      credentials:\n        username: u\n        password: plain\n    services:\n      s1:\n        image: y\n        credentials:\n          username: u\n          password: plain\n      s2:\n        image: z\n        credentials:\n          username: u\n          password: plain2\n    steps:\n      - run: echo\n",
+	"matrix-include-type-merge":         "on: push\njobs:\n  a:\n    runs-on: ubuntu-latest\n    strategy:\n      matrix:\n        include:\n          - ${{ env }}\n          - ${{ fromJSON('{\"a\":1,\"b\":true,\"c\":\"x\",\"d\":null}') }}\n          - ${{ vars }}\n          - ${{ fromJSON('{\"a\":\"s\",\"e\":[1],\"f\":{\"g\":1}}') }}\n          - a: 1.5\n            h: {i: j}\n    steps:\n      - run: echo ${{ matrix.zz.yy }} ${{ matrix.a.b }} ${{ matrix.e.f }} ${{ matrix.f.g.h }} ${{ matrix.h.i.j }} ${{ toJSON(matrix) == 1 }}\n",
+	"workflow-call-self":                "on:\n  workflow_call:\n    inputs:\n      a:\n        type: string\n      b:\n        type: number\n        required: true\n    secrets:\n      s:\n        required: true\n    outputs:\n      o1:\n        value: ${{ jobs.a.outputs.nope }}\n      o2:\n        value: ${{ jobs.nope.outputs.x }}\njobs:\n  a:\n    runs-on: ubuntu-latest\n    outputs:\n      x: y\n    steps:\n      - run: echo ${{ inputs.zzz }} ${{ secrets.qqq }}\n",
 }
 
 // project-based collision inputs (paths relative to the tree root of C10's layout)
@@ -147,6 +153,9 @@ func TestVerifC02(t *testing.T) {
 		}
 		return ""
 	}
+	if r.Shard == 0 && vReplayInput() == nil {
+		c02Comparators(r)
+	}
 	root := vTempDir(t, "c02-")
 	vWriteFiles(t, root, c02Tree)
 
@@ -186,6 +195,14 @@ func TestVerifC02(t *testing.T) {
 			t.Fatal(err)
 		}
 		isReplay = true
+		var cmp struct {
+			Comparator string `json:"comparator"`
+		}
+		if jsonUnmarshal(raw, &cmp) == nil && cmp.Comparator != "" {
+			c02Comparators(r)
+			c02Comparators(r)
+			return
+		}
 	}
 
 	// ---- (1) map orders
@@ -506,4 +523,48 @@ func vExploreMap(r *vReport, name string, cfg vsched.Config, body func(x *vsched
 		r.Violation(key, vTrunc(msg, 900), rp)
 	}
 	return res
+}
+
+// c02Comparators checks, over a complete small grid, that the two position comparators used to
+// order map-derived data are strict orders: otherwise the result of sorting / of picking the
+// minimum depends on the arrival (map iteration) order.
+func c02Comparators(r *vReport) {
+	var ps []*Pos
+	for l := 1; l <= 3; l++ {
+		for c := 1; c <= 3; c++ {
+			ps = append(ps, &Pos{Line: l, Col: c})
+		}
+	}
+	ref := func(a, b *Pos) bool { return a.Line < b.Line || a.Line == b.Line && a.Col < b.Col }
+	for _, a := range ps {
+		for _, b := range ps {
+			r.Evaluations++
+			r.Transitions++
+			r.Validated++
+			if got, want := a.IsBefore(b), ref(a, b); got != want {
+				r.Violation("comparator:Pos.IsBefore", fmt.Sprintf("Pos.IsBefore is not the (line, column) order: (%v).IsBefore(%v) = %v, expected %v; minimum selection and sorting of map-derived positions then depend on the iteration order", a, b, got, want), map[string]any{"comparator": "Pos.IsBefore", "a": []int{a.Line, a.Col}, "b": []int{b.Line, b.Col}})
+			}
+		}
+	}
+	var es []*Error
+	for _, f := range []string{"a", "b"} {
+		for l := 1; l <= 2; l++ {
+			for c := 1; c <= 2; c++ {
+				es = append(es, &Error{Filepath: f, Line: l, Column: c})
+			}
+		}
+	}
+	for i := range es {
+		for j := range es {
+			r.Evaluations++
+			r.Transitions++
+			r.Validated++
+			a, b := es[i], es[j]
+			want := a.Filepath < b.Filepath || a.Filepath == b.Filepath && (a.Line < b.Line || a.Line == b.Line && a.Column < b.Column)
+			if got := ByErrorPosition(es).Less(i, j); got != want {
+				r.Violation("comparator:ByErrorPosition", fmt.Sprintf("ByErrorPosition.Less is not the (file, line, column) order for %v vs %v: %v, expected %v", a, b, got, want), map[string]any{"comparator": "ByErrorPosition", "i": i, "j": j})
+			}
+		}
+	}
+	r.Class("comparators", true)
 }
